@@ -515,7 +515,8 @@ func (r *rewriter) rewriteCall(c *astutil.Cursor, n *ast.CallExpr) {
 		}
 		if s, ok := n.Fun.(*ast.SelectorExpr); ok && s.Sel.Name == "MapRange" && len(n.Args) == 0 {
 			if t := r.typeOf(s.X); t != nil && t.String() == "reflect.Value" {
-				r.errorf(n, "reflect.Value.MapRange is not covered by the map-order seam")
+				r.stats["maprange"]++
+				c.Replace(r.call("MapRange", s.X))
 			}
 		}
 	}
